@@ -133,7 +133,7 @@ type query struct {
 }
 
 func queries() (out []query) {
-	for _, h := range []string{"a.test", "b.test", "x.a.test", "y.x.a.test", "z.test", "q.a.test", "x.b.test", "A.Test", "other.example"} {
+	for _, h := range []string{"a.test", "b.test", "x.a.test", "y.x.a.test", "z.test", "q.a.test", "x.b.test", "A.Test", "other.example", "xa.test", "yx.a.test"} {
 		for _, t := range []uint16{qA, qAAAA, qTXT} {
 			out = append(out, query{h, t})
 		}
@@ -618,7 +618,7 @@ func main() {
 				"distinct_wire_outcomes":           m.Distinct["wire"],
 				"order_dependent_cname_tie_exempt": m.Counters["order_dependent_cname_tie_exempt"],
 				"order_dependent_same_wildcard_several_values_exempt": m.Counters["order_dependent_same_wildcard_several_values_exempt"],
-				"rule":                             "part 1: every ordered table of <=3 entries over 7 patterns (a.test b.test x.a.test *.test *.a.test *.b.test *.x.a.test) x 11 answers (1.1.1.1 2.2.2.2 ::1 A AAAA a.test b.test x.a.test x.b.test y.a.test c.other) + wildcard-onto-itself = 81 entries, plus size 4 over a 35-entry sub-alphabet (thorough: <=4 over the 81 entries plus size 5 over a 25-entry sub-alphabet); 9 names x A/AAAA/TXT; every permutation is a fresh filtering.New and must agree with the others. part 2: tables of <=2 entries over the 81 entries and of 3 over the 35-entry sub-alphabet (thorough: <=3 over the 81), each in 2 orders, x the same queries, through dnsforward with a mock upstream in 3 modes. non-trivial = distinct resolution path shapes (kind/exactness/shadowing/tie per step and final outcome, per query type) of queries matched by the table",
+				"rule":                             "part 1: every ordered table of <=3 entries over 7 patterns (a.test b.test x.a.test *.test *.a.test *.b.test *.x.a.test) x 11 answers (1.1.1.1 2.2.2.2 ::1 A AAAA a.test b.test x.a.test x.b.test y.a.test c.other) + wildcard-onto-itself = 81 entries, plus size 4 over a 35-entry sub-alphabet (thorough: <=4 over the 81 entries plus size 5 over a 25-entry sub-alphabet); 11 names (incl. xa.test and yx.a.test, which end like a wildcard's base without the label boundary) x A/AAAA/TXT; every permutation is a fresh filtering.New and must agree with the others. part 2: tables of <=2 entries over the 81 entries and of 3 over the 35-entry sub-alphabet (thorough: <=3 over the 81), each in 2 orders, x the same queries, through dnsforward with a mock upstream in 3 modes. non-trivial = distinct resolution path shapes (kind/exactness/shadowing/tie per step and final outcome, per query type) of queries matched by the table",
 			}
 		},
 		Assumptions: []string{
